@@ -203,6 +203,8 @@ val snprintf_store : n -> n list -> n list
 
 val ipv4_to_str : n -> n -> z * n list
 
+val ipv4_to_str_fixed : n -> n -> z * n list
+
 val skip_ws : n list -> n list
 
 val scan_digits : nat -> n list -> nat -> n -> (nat * n) * n list
